@@ -255,6 +255,16 @@ def gen_cases(ctx):
             cases.append(c)
     for rep in range(ctx.n(1, 4)):
         cases += gen_big(rng)
+    # RGB565 output (jdcol565.c, all six converters) through jpeg_read_scanlines with >= 2 lines per call, every
+    # row in its own guarded buffer, row pointers 2 (mod 4) and 0 (mod 4), widths 1..5 and larger, v_samp 1/2/4
+    for rep in range(ctx.n(1, 6)):
+        for src in ("ycc", "rgb", "gray"):
+            for dither in (0, 1):
+                for al in (2, 0):
+                    for w in [1, 2, 3, 4, 5, rng.range(6, 40), rng.range(41, 130)]:
+                        for ss, mx in ((2, 2), (6, 4), (4, rng.range(2, 5)), (rng.choice([0, 1, 5]), rng.range(2, 6))):
+                            cases.append("r565 w=%d h=%d ss=%d src=%s dither=%d al=%d max=%d fast=%d" % (
+                                w, rng.choice([3, 8, 9, 17, 33]), ss, src, dither, al, mx, rng.below(2)))
     # value level: down/up-sampling kernels against the C loops of the model, every width, both ISAs,
     # rows exactly as long as alloc_sarray pads them and ending at a PROT_NONE page
     for rep in range(ctx.n(1, 6)):
@@ -305,7 +315,7 @@ def documented_rows(line):
     kind = line.split()[0]
     api = k.get("api", "")
     out = {}
-    if kind in ("rs", "big", "kv"):
+    if kind in ("rs", "big", "kv", "r565"):
         return out
     if kind == "hist":
         x_, y_, w_, h_ = stored_region(k)
@@ -419,6 +429,10 @@ def describe(line, level):
     kind = line.split()[0]
     if kind == "kern":
         return "SIMD kernel %s/%s, %s columns, guard side %s" % (k.get("k"), k.get("fn"), k.get("n"), "high" if k.get("side") == "1" else "low")
+    if kind == "r565":
+        return ("jpeg_read_scanlines(max_lines=%s) with out_color_space=JCS_RGB565 (%s source, dither=%s, do_fancy_upsampling=%s), %sx%s subsamp=%s, "
+                "every row pointer = %s (mod 4) and ending at a guard page, simd=%s" % (
+                    k.get("max"), k.get("src"), k.get("dither"), "0" if k.get("fast") == "1" else "1", k.get("w"), k.get("h"), k.get("ss"), k.get("al"), level))
     if kind == "kv":
         return "SIMD kernel %s (%s), width %s, rows as padded by alloc_sarray and ending at a guard page" % (
             {"ds1": "h2v1_downsample", "ds2": "h2v2_downsample", "fu1": "h2v1_fancy_upsample", "fu2": "h2v2_fancy_upsample"}.get(k.get("k")),
